@@ -93,7 +93,8 @@ class Contract:
     def __init__(self, params=None, requires=(), ensures=(), raises=None, loops=None, theory=None,
                  inline=(), opaque=(), ghosts=None, public_ensures=(), modifies=(), result=None,
                  fields=None, pure=True, frame=(), no_raise=False, mode='unbounded', defaults=None,
-                 ensures_exc=None, result_kind=None, notes='', ladder=None, lemmas=None, ghost_at=None, ghost_entry=()):
+                 ensures_exc=None, result_kind=None, notes='', ladder=None, lemmas=None, ghost_at=None, ghost_entry=(), replace=None):
+        self.replace = replace or {}        # source-text prefix of a statement -> ghost statements that stand in for it (assumed effect)
         self.ghost_entry = list(ghost_entry)  # ghost statements executed at function entry (after the preconditions are assumed)
         self.ghost_at = ghost_at or {}      # source-text prefix of a statement -> ghost statements executed right after it
         self.ladder = ladder or []
@@ -267,6 +268,9 @@ class Exec:
             self.finish_path(s, oc, fnode)
         if self.feasible_paths == 0:
             self.vacuous.append('no path through the function is feasible under the contract')
+        for pat in getattr(self.contract, 'replace', {}):
+            if 'replace:' + pat not in self.ghost_at_hits:
+                raise Unsupported('replacement anchor %r matches no statement of the function (the code moved: contract needs re-anchoring)' % pat)
         for pat in self.contract.ghost_at:
             if pat not in self.ghost_at_hits:
                 raise Unsupported('ghost anchor %r matches no statement of the function (the code moved: contract needs re-anchoring)' % pat)
@@ -495,6 +499,15 @@ class Exec:
         m = getattr(self, 'stmt_' + type(node).__name__, None)
         if m is None:
             raise Unsupported('statement %s at line %d' % (type(node).__name__, node.lineno))
+        if getattr(self.contract, 'replace', None) and not self.spec_mode:
+            src = ast.unparse(node)
+            for pat, stmts in self.contract.replace.items():
+                if src.startswith(pat):
+                    # the statement is outside the modelled subset: it is dropped and the listed ghost statements stand in
+                    self.ghost_at_hits.add('replace:' + pat)
+                    self.assumed.append('statement at line %d replaced by its assumed effect (%s): %s' % (node.lineno, '; '.join(stmts) or 'no effect on the proved clauses', pat))
+                    self.exec_ghost(stmts, st, node)
+                    return [(st, None)]
         outs = m(node, st)
         if self.contract.ghost_at and not self.spec_mode and isinstance(node, (ast.Assign, ast.Expr, ast.AugAssign)):
             src = ast.unparse(node)
@@ -573,8 +586,13 @@ class Exec:
     def stmt_Continue(self, node, st):
         return [(st, (Outcome.CONTINUE, None, node))]
 
+    def truth_of_test(self, test, st):
+        if isinstance(test, ast.Name) and test.id in self.contract.ghosts.get('listlike', ()):
+            return bnot(s_eq(lib._len(self, st, st.env[test.id], test), 0))       # a python list: truthy iff non-empty
+        return truthy(self.eval(test, st))
+
     def stmt_If(self, node, st):
-        c = truthy(self.eval(node.test, st))
+        c = self.truth_of_test(node.test, st)
         if c is True:
             return self.exec_block(node.body, st)
         if c is False:
@@ -721,7 +739,12 @@ class Exec:
                 st.store[buf] = arr
                 v = PyList(buf)
             if isinstance(v, PyList) and target.id in lhints and not self.spec_mode and getattr(st.store[v.buf], 'elem', None) is None:
-                st.store[v.buf].elem = lhints[target.id]
+                cod = lhints[target.id]
+                raw = st.store[v.buf]
+                # elements seen through the codec (None becomes an optional value with a typed payload)
+                norm = ArrayVal(raw.shape, lambda i, raw=raw, cod=cod: cod.unpack(cod.pack(raw.get(i))), 'obj')
+                norm.elem = cod
+                st.store[v.buf] = norm
             st.env[target.id] = v
             return
         if isinstance(target, (ast.Tuple, ast.List)):
@@ -1044,7 +1067,7 @@ class Exec:
             for i in range(spec.unroll + 1):
                 nxt = []
                 for s, oc in states:
-                    c = truthy(self.eval(node.test, s))
+                    c = self.truth_of_test(node.test, s)
                     if c is not True:
                         s_exit = s.copy()
                         s_exit.assume(bnot(c))
@@ -1114,7 +1137,7 @@ class Exec:
             body_st.assume(s_lt(cnt, ln))
             self.assign(node.target, item(cnt), body_st)
         else:
-            c = truthy(self.eval(test, body_st))
+            c = self.truth_of_test(test, body_st)
             body_st.assume(c)
         var0 = None
         if spec.variant:
@@ -1168,7 +1191,7 @@ class Exec:
         if ln is not None:
             exit_st.assume(s_eq(cnt, ln))
         else:
-            c = truthy(self.eval(test, exit_st))
+            c = self.truth_of_test(test, exit_st)
             exit_st.assume(bnot(c))
         for e in spec.exit_assume:
             exit_st.assume(self.eval_spec(e, exit_st, role='hyp'))
@@ -1671,6 +1694,9 @@ class Exec:
             j, ok = norm_index(idx, old.shape[0])
             self.emit_all(st, 'index', [(ok, 'index in bounds')], node)
             dt = old.dtype
+            cod = getattr(old, 'elem', None)
+            if cod is not None:
+                v = cod.unpack(cod.pack(v))        # the element as the list's codec sees it (typed, None-aware)
             vk = dtype_of_value(v)
             if vk != dt:
                 dt = 'obj'
